@@ -8,13 +8,18 @@
 typedef ARGT_w_map_next_1 Item;
 typedef ARGT_w_map_get_0 MapT;
 static uint64_t* H;                           /* the arbitrary hash function on 1-character keys (values 0..255) */
+/* FNV-1a of a 1-character string exactly as include/gdstk/utils.hpp computes it (char is signed): used natively, and under
+   -DREAL_HASH to turn an abstract counterexample (arbitrary hash) into one the real code reproduces */
+static uint64_t fnv1(uint8_t c) { uint64_t h = 0xcbf29ce484222325ULL; h ^= (uint64_t)(int64_t)(int8_t)c; h *= 0x100000001b3ULL; return h; }
+#if defined(REAL) || defined(REAL_HASH) || !defined(__CPROVER__)
+#define HASHOF(c) fnv1(c)
+#else
+#define HASHOF(c) (H[c] & 0xff)
+#endif
 #ifndef REAL
-uint64_t _ZN5gdstk4hashEPKc(uint8_t* k) { return H[k[0]] & 0xff; }
+uint64_t _ZN5gdstk4hashEPKc(uint8_t* k) { return HASHOF(k[0]); }
 /* copy_string contract for the 1-character keys of this harness: fresh NUL-terminated copy (fixed size keeps allocation sizes concrete) */
 uint8_t* _ZN5gdstk11copy_stringEPKcPm(uint8_t* s, uint64_t* len) { __CPROVER_assert(s[0] != 0 && s[1] == 0, "harness keys are 1 character"); uint8_t* r = malloc(2); r[0] = s[0]; r[1] = 0; if (len) *len = 2; return r; }
-#else
-/* FNV-1a as in include/gdstk/utils.hpp, only so the native model of validity agrees with the real code */
-static uint64_t fnv(uint8_t c) { uint64_t h = 0xcbf29ce484222325ULL; h ^= c; h *= 0x100000001b3ULL; return h; }
 #endif
 #define DEFVALID(NAME, LOOK, C) \
 static int NAME(Item* it, uint64_t cap, uint64_t count) { \
@@ -23,7 +28,7 @@ static int NAME(Item* it, uint64_t cap, uint64_t count) { \
   for (uint64_t i = 0; i < (C); i++) if (it[i].f0) { \
     n++; \
     if (it[i].f0[0] == 0 || it[i].f0[1] != 0) return 0; \
-    uint64_t h = (H[it[i].f0[0]] & 0xff) % (C); \
+    uint64_t h = HASHOF(it[i].f0[0]) % (C); \
     for (uint64_t d = 0; d < (C); d++) { uint64_t j = (h + d) % (C); if (j == i) break; if (!it[j].f0) return 0; } \
     for (uint64_t j = 0; j < (C); j++) if (j != i && it[j].f0 && it[j].f0[0] == it[i].f0[0]) return 0; \
   } \
@@ -58,9 +63,6 @@ int main(void) {
 #ifdef __CPROVER__
   uint64_t Hloc[256];                        /* uninitialised: every function uint8 -> uint64 */
   H = Hloc;
-#else
-  static uint64_t Hloc[256]; H = Hloc;
-  for (int i = 0; i < 256; i++) Hloc[i] = (uint64_t)nd_range(0, 255);
 #endif
   Item* items = malloc(sizeof(Item) * CAP);
   uint64_t cnt = 0;
